@@ -518,6 +518,7 @@ func (rn *runner) exec(si int, st mbt.Step, rid int, wantOut string) bool {
 			got = "error:" + aerr.Error()
 		}
 	}
+	rn.rep.Count("exec:" + strings.SplitN(got, ":", 2)[0])
 	if got != wantOut {
 		// a replica that cannot execute a block the other one executed is a divergence between replicas
 		rn.fail(si, st, "mismatch", true, "Exec-outcome:"+wantOut+":"+strings.SplitN(got, ":", 2)[0], fmt.Sprintf("replica %d block %d: %v", rid, k+1, aerr), wantOut, got)
